@@ -74,6 +74,9 @@ def ledger_id(oid):
     return oid
 
 
+MAX_REPLAYS = 40
+
+
 def load_known_findings():
     p = os.path.join(VERIF, "known_findings.json")
     if not os.path.exists(p):
@@ -177,7 +180,9 @@ def run_pack(prop, cases, grounds=(), bounded=(), *, tier="quick", seed=0, assum
             continue
         c = r.get("_case")
         rep = {"reproduced": None, "detail": "no replay harness for this obligation"}
-        if c is not None and c.replay is not None:
+        if c is not None and c.replay is not None and len(violations) >= MAX_REPLAYS:
+            rep = {"reproduced": None, "detail": f"replay skipped: more than {MAX_REPLAYS} violated obligations in this run (the first ones are replayed)"}
+        elif c is not None and c.replay is not None:
             try:
                 rep = c.replay(r)
             except Exception as e:  # noqa
